@@ -320,7 +320,71 @@ func c05Signature(cs c05Case, model string, aspect string) string {
 	return fmt.Sprintf("op=%s in=%s out=%s aspect=%s", cs.op.name, strings.Join(in, ","), out, aspect)
 }
 
+// c05ParseRequest rebuilds a case from its model request line (used by --replay).
+func c05ParseRequest(req string) (c05Case, bool) {
+	w := strings.Fields(req)
+	if len(w) < 2 || w[0] != "num" {
+		return c05Case{}, false
+	}
+	var cs c05Case
+	found := false
+	for _, op := range c05Ops {
+		if op.name == w[1] {
+			cs.op, found = op, true
+		}
+	}
+	if !found {
+		return cs, false
+	}
+	for _, a := range w[2:] {
+		kind, v, _ := strings.Cut(a, ":")
+		switch kind {
+		case "q":
+			r, ok := new(big.Rat).SetString(v)
+			if !ok {
+				return cs, false
+			}
+			cs.args = append(cs.args, c05Operand{rat: r, kind: "q"})
+		case "d":
+			var bits uint64
+			_, _ = fmt.Sscanf(v, "%x", &bits)
+			cs.args = append(cs.args, c05Double(math.Float64frombits(bits)))
+		case "s":
+			var bits uint64
+			_, _ = fmt.Sscanf(v, "%x", &bits)
+			cs.args = append(cs.args, c05Single(math.Float32frombits(uint32(bits))))
+		default:
+			return cs, false
+		}
+	}
+	return cs, true
+}
+
+func c05Replay(c *lib.Ctx) {
+	var rec map[string]any
+	if err := lib.ReadJSON(c.Replay, &rec); err != nil {
+		fmt.Println("cannot read replay file:", err)
+		return
+	}
+	req, _ := rec["request"].(string)
+	cs, ok := c05ParseRequest(req)
+	if !ok {
+		fmt.Println("replay file has no usable request:", rec["input"])
+		return
+	}
+	model := c.Model([]string{req})[0]
+	impl, mutated, fault, msg := c05Impl(cs)
+	fmt.Printf("replay %s\n  implementation: %s %s\n  model         : %s\n  operand mutated: %v go-fault: %v\n", cs.lisp(), impl, msg, model, mutated, fault)
+	if impl != model && c05Aspect(impl, model) != "" || mutated || fault {
+		c.Report(c05Signature(cs, model, "replay"), false, map[string]any{"input": cs.lisp(), "request": req, "observed": impl, "expected": model})
+	}
+}
+
 func runC05(c *lib.Ctx) {
+	if c.Replay != "" {
+		c05Replay(c)
+		return
+	}
 	grid := c05Grid()
 	var cases []c05Case
 	small := []c05Operand{c05Int("-70"), c05Int("-64"), c05Int("-63"), c05Int("-3"), c05Int("-1"), c05Int("0"),
@@ -466,11 +530,11 @@ func runC05(c *lib.Ctx) {
 			c.Ev.Sample(map[string]string{"case": cs.lisp(), "impl": impl, "model": model})
 		}
 		if fault {
-			c.Report(c05Signature(cs, model, "go-fault"), true, map[string]any{"input": cs.lisp(), "observed": impl + " " + msg, "expected": model, "expected_from": "model:num"})
+			c.Report(c05Signature(cs, model, "go-fault"), true, map[string]any{"input": cs.lisp(), "request": reqs[i], "observed": impl + " " + msg, "expected": model, "expected_from": "model:num"})
 			continue
 		}
 		if mutated {
-			c.Report(c05Signature(cs, model, "operand-mutated"), true, map[string]any{"input": cs.lisp(), "observed": "an operand object changed its printed value during the call", "expected": "operands unchanged", "expected_from": "property statement"})
+			c.Report(c05Signature(cs, model, "operand-mutated"), true, map[string]any{"input": cs.lisp(), "request": reqs[i], "observed": "an operand object changed its printed value during the call", "expected": "operands unchanged", "expected_from": "property statement"})
 		}
 		if impl == model {
 			agree++
